@@ -386,6 +386,9 @@ class EffectInterp(Interpreter):
         raise OutOfReach("unary op")
 
     def getattr_(self, obj, attr):
+        if self.is_opaque(obj) and attr == "__name__" and isinstance(obj, SV) and z3.is_app(obj.t) and obj.t.decl().name() == "type_of":
+            # the name of a type object (type(x).__name__): a pure read, no user code runs (A-TYPE-NAME)
+            return "<type name>"   # a plain str: formatting it runs no user code
         if self.is_opaque(obj):
             return self.prim(f"getattr.{attr}", [obj])
         if isinstance(obj, dict) and attr == "update":
